@@ -62,23 +62,24 @@ def run(ctx):
                     written[k.value] = 'handler' if in_handler else 'normal'
     if len(written) < 2:
         raise AnalysisError('anchor-lost role=envelope tags written by the executor (found %s)' % written)
-    env_var = None
+    env_vars = []
     for n in walk_own(rd.node):
         if isinstance(n, ast.Assign) and isinstance(n.value, ast.Call) and isinstance(n.value.func, ast.Attribute) and \
-                n.value.func.attr in ('get_data', '__getitem__') and isinstance(n.targets[0], ast.Name):
-            env_var = n.targets[0].id
-    if env_var is None:
+                n.value.func.attr in ('get_data', 'get_data_direct', '__getitem__') and isinstance(n.targets[0], ast.Name):
+            env_vars.append(n.targets[0].id)
+    if not env_vars:
         raise AnalysisError('anchor-lost role=envelope variable of the reader')
+    env_var = env_vars[-1]
     raised = set()
     read = set()
     for n in ast.walk(rd.node):
         if isinstance(n, ast.Raise) and isinstance(n.exc, ast.Subscript) and isinstance(n.exc.value, ast.Name) and \
-                n.exc.value.id == env_var and isinstance(n.exc.slice, ast.Constant):
+                n.exc.value.id in env_vars and isinstance(n.exc.slice, ast.Constant):
             raised.add(n.exc.slice.value)
-        if isinstance(n, ast.Subscript) and isinstance(n.value, ast.Name) and n.value.id == env_var and isinstance(n.slice, ast.Constant):
+        if isinstance(n, ast.Subscript) and isinstance(n.value, ast.Name) and n.value.id in env_vars and isinstance(n.slice, ast.Constant):
             read.add(n.slice.value)
         if isinstance(n, ast.Compare) and len(n.ops) == 1 and isinstance(n.ops[0], (ast.In, ast.NotIn)) and \
-                isinstance(n.left, ast.Constant) and isinstance(n.comparators[0], ast.Name) and n.comparators[0].id == env_var:
+                isinstance(n.left, ast.Constant) and isinstance(n.comparators[0], ast.Name) and n.comparators[0].id in env_vars:
             read.add(n.left.value)
     exc_tag = [t for t, c in written.items() if c == 'handler']
     val_tag = [t for t, c in written.items() if c == 'normal']
@@ -236,6 +237,7 @@ def run(ctx):
                         'play() must absorb exactly the operation-exception-during-playback kind (absorbs atoms %s, leaks=%s)' % (
                             sorted(htypes), leaked is not None)))
 
+    rm.replay_idle_clause(ctx, res, 'C01', 'C01.h', 'every exit of play() resets counter / outputs / playback recording (ordinals restart at 1)')
     # ---------------- C01.f
     cf = res.clause('C01.f', 'R-PROV', 'play(): fetched recording installed as playback recording, extracted from, returned', floor=3)
     ok, why = play_uses_fetched(roles)
